@@ -59,6 +59,65 @@ def matrix_assignments(fn, name, env, sp, dim):
     return M, n
 
 
+def rule_qtrfit_semantics(prog, r3, sp, qs, Aq, w3):
+    """qtrfit is evaluated on two symbolic point pairs with the diagonaliser and q2mat kept uninterpreted, on every path
+    through tests the symbols leave open."""
+    from ..guards import Flow
+    from ..objinterp import ObjRunner
+    npts = 2
+    D = [[sp.Symbol(f"d{p}{i}") for i in range(3)] for p in range(npts)]
+    R = [[sp.Symbol(f"r{p}{i}") for i in range(3)] for p in range(npts)]
+    V = [[sp.Symbol(f"v{i}{j}") for j in range(4)] for i in range(4)]
+    rec = {}
+
+    def extra(runner, interp, call, args, kw):
+        nm = U(call.func)
+        if nm == "jacobi":
+            rec.setdefault("c", []).append([list(row) for row in args[0]])
+            return [[sp.Symbol(f"e{i}") for i in range(4)], [list(row) for row in V]]
+        if nm == "q2mat":
+            rec.setdefault("q", []).append(list(args[0]))
+            return "LROT"
+        return NotImplemented
+
+    run = ObjRunner(prog, "quatfit.py", extra_hook=extra, fork=True)
+
+    def thunk():
+        rec.clear()
+        try:
+            out = run.call_function("quatfit.py", "qtrfit", npts, [list(p) for p in D], [list(p) for p in R], sp.Symbol("nrot"))
+        except Flow as fl:
+            return ("raise", fl.value, dict(rec))
+        return ("ok", out, {k: list(v) for k, v in rec.items()})
+
+    paths = list(run.explore(thunk))
+    r3.info["qtrfit_paths"] = len(paths)
+    horn_bad, vec_bad = [], []
+    qv = sp.Matrix(qs)
+    overlap = sp.expand(sum(Aq[k, i] * D[p][i] * R[p][k] for p in range(npts) for i in range(3) for k in range(3)))
+    for dec, (kind, out, got) in paths:
+        tag = ("when " + "; ".join(f"{k[:50]} is {v}" for k, v in dec.items())) if dec else "on the only path"
+        if kind != "ok":
+            vec_bad.append(f"{tag}: qtrfit raises {out}")
+            continue
+        if len(got.get("c", [])) != 1 or len(got.get("q", [])) != 1:
+            raise AnalysisError("qtrfit: expected one call of jacobi and one of q2mat on the model")
+        c = got["c"][0]
+        Cs = sp.Matrix(4, 4, lambda i, j: c[i][j] if i <= j else c[j][i])
+        diff = sp.expand((qv.T * Cs * qv)[0] - overlap)
+        if diff != 0:
+            horn_bad.append(f"{tag}: q^T*C*q - overlap = {str(diff)[:120]}")
+        want = [V[i][3] for i in range(4)]
+        if got["q"][0] != want or not (isinstance(out, (list, tuple)) and len(out) == 2 and list(out[0]) == want and out[1] == "LROT"):
+            vec_bad.append(f"{tag}: q2mat receives {got['q'][0]} and qtrfit returns {out}; the eigenvector of the largest eigenvalue is {want}")
+    r3.add("horn-identity", not horn_bad,
+           "q^T*C*q == sum_i rotmol(x_i, q2mat(q)) . y_i identically in q and the point coordinates, for the matrix qtrfit hands to the "
+           "diagonaliser: its top eigenvector is the least-squares rotation for the way q2mat and rotmol are written" if not horn_bad else horn_bad[0], w3)
+    r3.add("eigenvector-unmodified", not vec_bad,
+           f"on all {len(paths)} path(s) the last eigenvector column goes to q2mat unchanged and (quaternion, matrix) are returned" if not vec_bad
+           else vec_bad[0] + " -- a fit whose quaternion is replaced is no longer the best rigid superposition", w3)
+
+
 def rule_callsite_semantics(prog, r4, sp):
     """set_dihedral_angle and rotate_tetrahedral are evaluated on object models whose coordinates are symbols; the rotation
     primitive is kept uninterpreted (it is decided by R2).  What is handed to it and what is stored back is compared, as
@@ -242,47 +301,16 @@ def check(prog, rep):
 
     # ------------------------------------------------------------------ R3
     r3 = rep.rule("R3", "fit matrix, quaternion-to-matrix and rotmol conventions agree (Horn identity); largest eigenvector is used", floor=3)
-    S = sp.symbols("xxyx xxyy xxyz xyyx xyyy xyyz xzyx xzyy xzyz")
-    envq = {str(z): z for z in S}
-    Cm, n = matrix_assignments(F["qtrfit"], "cmat", envq, sp, 4)
-    if n != 10:
-        raise AnalysisError(f"qtrfit: expected ten cmat assignments (upper triangle), found {n}")
-    Cs = sp.zeros(4, 4)
-    for i in range(4):
-        for j in range(4):
-            v = Cm[i][j] if Cm[i][j] is not None else Cm[j][i]
-            if v is None:
-                raise AnalysisError(f"qtrfit: cmat[{i}][{j}] never assigned")
-            Cs[i, j] = v
-    qv = sp.Matrix(qs)
-    lhs = sp.expand((qv.T * Cs * qv)[0])
-    # overlap of rotmol(def, U(q)) with ref, expressed through the nine accumulated sums
-    Aq = rotmol_matrix(F["rotmol"], [[Umat[i, j] for j in range(3)] for i in range(3)], xs, sp)
-    names = [["xxyx", "xxyy", "xxyz"], ["xyyx", "xyyy", "xyyz"], ["xzyx", "xzyy", "xzyz"]]
-    # (A x) . y = sum_{k,i} A[k,i] x_i y_k ;  sum over points of x_i y_k is the accumulator named names[i][k]
-    rhs = sp.expand(sum(Aq[k, i] * envq[names[i][k]] for i in range(3) for k in range(3)))
     w3 = f"pdb2pqr/quatfit.py:{F['qtrfit'].lineno} (qtrfit)"
-    r3.add("horn-identity", sp.expand(lhs - rhs) == 0,
-           "q^T*C*q == sum_i rotmol(x_i, q2mat(q)) . y_i identically in q and the nine sums: the top eigenvector of C is the "
-           "least-squares rotation for the way q2mat and rotmol are written" if sp.expand(lhs - rhs) == 0 else
-           f"q^T*C*q - overlap = {sp.expand(lhs - rhs)}", w3)
-    acc = {}
-    for st in iter_stmts(F["qtrfit"].body):
-        if isinstance(st, ast.AugAssign) and U(st.target) in envq:
-            acc[U(st.target)] = U(st.value)
-    idx = {"x": 0, "y": 1, "z": 2}
-    okacc = len(acc) == 9 and all(acc[k] == f"defcoords[i][{idx[k[1]]}] * refcoords[i][{idx[k[3]]}]" for k in acc)
-    r3.add("accumulators", okacc, "the nine sums accumulate def[i][a]*ref[i][b] with (a,b) as their names say" if okacc else f"accumulators: {acc}", w3)
+    Aq = rotmol_matrix(F["rotmol"], [[Umat[i, j] for j in range(3)] for i in range(3)], xs, sp)
+    rule_qtrfit_semantics(prog, r3, sp, qs, Aq, w3)
     jac = F["jacobi"]
     sort_cmp = [n for n in ast.walk(jac) if isinstance(n, ast.Compare) and U(n.left) == "dvec[i]" and U(n.comparators[0]) == "dtemp"]
     asc = bool(sort_cmp) and isinstance(sort_cmp[0].ops[0], ast.Lt)
-    col = [st for st in F["qtrfit"].body if isinstance(st, ast.Assign) and U(st.targets[0]) == "quat"]
-    col_ok = bool(col) and U(col[0].value) == "[vmat[i][3] for i in range(4)]"
     swap_cols = "vmat[i][k] = vmat[i][j]" in U(jac) and "vmat[i][j] = dtemp" in U(jac)
-    r3.add("largest-eigenvector", asc and col_ok and swap_cols,
-           f"jacobi sorts eigenvalues ascending (selection by {U(sort_cmp[0]) if sort_cmp else '?'}) swapping eigenvector columns with them, "
-           f"and qtrfit takes {U(col[0].value) if col else '?'}", f"pdb2pqr/quatfit.py:{jac.lineno} (jacobi/qtrfit)")
-    r3.add("quat-to-matrix", "lrot = q2mat(quat)" in U(F["qtrfit"]), "the rotation returned is q2mat of that eigenvector", w3)
+    r3.add("largest-eigenvector", asc and swap_cols,
+           f"jacobi sorts eigenvalues ascending (selection by {U(sort_cmp[0]) if sort_cmp else '?'}) swapping eigenvector columns with them "
+           "(qtrfit takes the last column: decided by 'eigenvector-unmodified')", f"pdb2pqr/quatfit.py:{jac.lineno} (jacobi/qtrfit)")
 
     # ------------------------------------------------------------------ R4
     r4 = rep.rule("R4", "call sites rotate about bond b->c relative to b; the measured torsion uses the same sign convention", floor=4)
